@@ -169,7 +169,20 @@ func rootOf(v ssa.Value, seen map[ssa.Value]bool) (origin, string) {
 			// append may return (and write into) the backing array of its first argument
 			return rootOf(x.Call.Args[0], seen)
 		}
-		// result of another call (a constructor ...): fresh
+		// result of another call: fresh (a constructor ...), unless it can hand out memory of an error
+		// value it was given -- a slice / map / pointer result of a call that takes an error
+		switch x.Type().Underlying().(type) {
+		case *types.Slice, *types.Map, *types.Pointer:
+			args := x.Call.Args
+			if x.Call.IsInvoke() {
+				args = append([]ssa.Value{x.Call.Value}, args...)
+			}
+			for _, a := range args {
+				if isErrorType(a.Type()) {
+					return oShared, "result of a call on an error value (" + typeName(a.Type()) + ")"
+				}
+			}
+		}
 		return oLocal, ""
 	case *ssa.Extract, *ssa.TypeAssert, *ssa.Lookup, *ssa.Index, *ssa.BinOp, *ssa.Next, *ssa.Range, *ssa.Field:
 		return byType(v.Type(), "derived value")
@@ -188,6 +201,11 @@ var callerOwned = map[string]string{
 	"(*errbase.SafeDetailPayload).Fill:slice":  "accumulator: both call sites (barrierErr.SafeDetails, withSecondaryError.SafeDetails) pass a slice declared in the same call",
 	"hintdetail.getAllHintsInternal:hints":     "accumulator created (nil) by GetAllHints for one call and threaded through the recursion",
 	"hintdetail.getAllDetailsInternal:details": "accumulator created (nil) by GetAllDetails for one call and threaded through the recursion",
+}
+
+var inPlaceMutators = map[string]bool{
+	"sort.Strings": true, "sort.Ints": true, "sort.Float64s": true, "sort.Slice": true, "sort.SliceStable": true,
+	"sort.Sort": true, "sort.Stable": true, "math/rand.Shuffle": true,
 }
 
 func owned(f *ssa.Function, why string) bool {
@@ -295,6 +313,18 @@ func main() {
 							effs = append(effs, fmt.Sprintf("EStoreShared %q", b.Name()+" into "+why+" at "+pos(x.Pos())))
 						} else if o == oUnknown && !owned(f, why) {
 							effs = append(effs, fmt.Sprintf("ECallUnknown %q", b.Name()+" into "+why+" at "+pos(x.Pos())))
+						}
+					}
+					if c := x.Call.StaticCallee(); c != nil && c.Pkg != nil && len(x.Call.Args) > 0 {
+						// library functions that rearrange their argument in place
+						full := c.Pkg.Pkg.Path() + "." + c.Name()
+						if inPlaceMutators[full] || (c.Pkg.Pkg.Path() == "slices" && (strings.HasPrefix(c.Name(), "Sort") || c.Name() == "Reverse")) {
+							o, why := rootOf(x.Call.Args[0], map[ssa.Value]bool{})
+							if o == oShared {
+								effs = append(effs, fmt.Sprintf("EStoreShared %q", full+" on "+why+" at "+pos(x.Pos())))
+							} else if o == oUnknown && !owned(f, why) {
+								effs = append(effs, fmt.Sprintf("ECallUnknown %q", full+" on "+why+" at "+pos(x.Pos())))
+							}
 						}
 					}
 					if c := x.Call.StaticCallee(); c != nil && c.Pkg != nil {
